@@ -412,7 +412,7 @@ class C20(DiffProperty):
                 if len(seen) % 7 == 0:
                     add("x", kind, [(["get", "a", hx(c)], [])])
         # 3. generic assignment and histories
-        nh = 300 if quick else 6000
+        nh = 300 if quick else 40000
         for i in range(nh):
             kind = KINDS[i % 5]
             impl = "x" if i % 3 == 0 else "c"
